@@ -110,6 +110,14 @@ CLAIMED = {
              "advances 2..4 real generators over one definition object in PRNG-chosen interleavings and compares a structural "
              "snapshot of the definition before and after.",
         design="§7 C11", technique="Lean 4 proof (list induction) + correspondence check on real generator objects"),
+    "C19": dict(
+        text="rows_small / rows_large / rows_large_count / rows_are_sublist (at most ten packets: each once, in order; otherwise "
+             "first five, one ellipsis row, last five; no packet listed twice for any n) and index_valid / index_out_of_range for "
+             "the mirror of the row selection and the index test; termination on every file is C10. PARTIAL: click's argument "
+             "handling and rich's rendering are outside the model; the correspondence drives the real commands in-process over "
+             "every n = 0..25 and every index -1..n+1 and recovers the rows from the rendered table; live MAX_ROWS/HEAD_ROWS are "
+             "compared with the model's constants.",
+        design="§7 C19", technique="Lean 4 proof (list lemmas) + exhaustive-range correspondence through click's CliRunner"),
 }
 
 NOT_YET = "check not built yet (work in progress; see DESIGN.md §11 build order)"
